@@ -42,8 +42,38 @@ where
 fn derive(r: &mut Rng, d: &Model) -> Model {
     let mut h = d.clone();
     let n = d.n();
-    match r.below(7) {
+    match r.below(9) {
         0 => {}
+        7 | 8 => {
+            // neither a sub- nor a superdigraph: delete some arcs AND add one or
+            // two that D doesn't have, with a bias towards the two ends of the
+            // lexicographic arc order (a scan or merge over sorted arcs is most
+            // fragile where one side runs out)
+            let keys = h.arc_list();
+            let (first, last) = (keys.first().copied(), keys.last().copied());
+            for a in &keys {
+                let end = Some(*a) == first || Some(*a) == last;
+                if r.chance(if end { 0.1 } else { 0.35 }) {
+                    h.remove(a.0, a.1);
+                }
+            }
+            if n >= 2 {
+                let absent: Vec<(usize, usize)> = (0..n).flat_map(|u| (0..n).map(move |v| (u, v))).filter(|&(u, v)| u != v && !d.has(u, v)).collect();
+                for _ in 0..r.range(1, 2) {
+                    if absent.is_empty() {
+                        break;
+                    }
+                    let after: Vec<(usize, usize)> = absent.iter().copied().filter(|a| last.is_none_or(|l| *a > l)).collect();
+                    let before: Vec<(usize, usize)> = absent.iter().copied().filter(|a| first.is_none_or(|f| *a < f)).collect();
+                    let a = match r.below(4) {
+                        0 | 1 if !after.is_empty() => *r.pick(&after),
+                        2 if !before.is_empty() => *r.pick(&before),
+                        _ => *r.pick(&absent),
+                    };
+                    h.add(a.0, a.1, 1);
+                }
+            }
+        }
         1 | 2 => {
             // delete some arcs
             let keys = h.arc_list();
